@@ -325,3 +325,43 @@ def run_quiet(tier, repo=None, procs=16):
         index[i]["verdict"] = {"violated": sorted(v["violated"]), "explained": v["explained"]}
     _qmemo[(tier, repo)] = tot
     return tot
+
+
+_wmemo = {}
+
+
+def run_wide_quiet(tier, repo=None, procs=16):
+    """Hundreds of children below one node (MC_OpsWide): expected outcome and forest from the property layer alone, replayed
+    without hook logs under both assertion settings; differing observations judged by TLC without logs."""
+    repo = repo or core.repo_path()
+    if (tier, repo) in _wmemo:
+        return _wmemo[(tier, repo)]
+    c = dict(name="ops-wide260" if tier == "quick" else "ops-wide300", N=266 if tier == "quick" else 306, Wide=260 if tier == "quick" else 300, MaxLen=260)
+    cfg = T.cfg_text({"Node": T.mv_set("n", c["N"]), "Nil": T.Raw("Nil"), "NonNode": T.Raw("NonNode"), "MaxStack": 12, "Wide": c["Wide"]},
+                     view="View", properties=("Thm_Wide",), action_constraints=("Emit",), deadlock=False)
+    stats = T.run_vectors("MC_OpsWide", cfg, c["name"], lambda st: st["generated"] - 1, workers=1)
+    lines = T.read_lines(stats["lines_path"])
+    tot = {"n": 0, "same": 0, "attention": [], "config": c, "tlc": stats, "asrt": False}
+    for asrt in (False, True):
+        with core.pool(ops_replay.worker_init, (repo, asrt, 3000), min(procs, len(lines))) as p:
+            parts = core.pmap(p, ops_replay.replay_chunk_quiet, [([ln], ["mixin", "light", "node", "anynode"]) for ln in lines])
+        tot["n"] += sum(r["n"] for r in parts)
+        tot["same"] += sum(r["same"] for r in parts)
+        for r in parts:
+            for a in r["attention"]:
+                a["asrt"] = asrt
+                tot["attention"].append(a)
+    events, index = [], {}
+    for ai, att in enumerate(tot["attention"][:200]):
+        obs = dict(att["obs"])
+        obs["strict"] = not att["family"].endswith("light")
+        obs["asrt"] = att["asrt"]
+        obs["id"] = "w%d" % ai
+        events.append(judge.normalise(obs, obs["id"], haslog=False))
+        index[obs["id"]] = att
+    if events:
+        verdicts, _ = judge.judge_ops(events, tag="judge-ops-wide")
+        for i, v in verdicts.items():
+            index[i]["verdict"] = {"violated": sorted(v["violated"]), "explained": v["explained"]}
+    _wmemo[(tier, repo)] = tot
+    return tot
